@@ -50,6 +50,8 @@ func (e DExpr) native() string {
 		return e.Str
 	case "tmpl":
 		return `"pre-${` + e.Str + `}-post"`
+	case "tmpl2":
+		return `"${self.zone}-${` + e.Str + `}"`
 	case "list":
 		var xs []string
 		for _, i := range e.Items {
@@ -79,6 +81,8 @@ func (e DExpr) json(legacy bool) string {
 		return fmt.Sprintf("%q", "${"+e.Str+"}")
 	case "tmpl":
 		return fmt.Sprintf("%q", "pre-${"+e.Str+"}-post")
+	case "tmpl2":
+		return fmt.Sprintf("%q", "${self.zone}-${"+e.Str+"}")
 	case "list":
 		var xs []string
 		for _, i := range e.Items {
@@ -172,6 +176,11 @@ func (g *dualGen) refOrTmpl() DExpr {
 }
 
 func (g *dualGen) strOrRef() DExpr {
+	if g.r.Intn(8) == 0 {
+		// a self.* reference (admitted only where the body enables it) in front of another reference
+		e := g.ref()
+		return DExpr{Kind: "tmpl2", Str: e.Str}
+	}
 	switch g.r.Intn(4) {
 	case 0:
 		return g.ref()
